@@ -32,6 +32,15 @@ type target struct {
 	L []interface{} `config:"l"`
 }
 
+// captured holds sub-configs captured from settings that may be references to objects
+type captured struct {
+	O *ucfg.Config            `config:"o"`
+	R *ucfg.Config            `config:"r"`
+	A *ucfg.Config            `config:"a"`
+	E *ucfg.Config            `config:"e"`
+	M map[string]*ucfg.Config `config:"m"`
+}
+
 func show(v interface{}, err error) string {
 	if err != nil {
 		return "error: " + err.Error()
@@ -59,6 +68,40 @@ var readOps = []readOp{
 		var m map[string]interface{}
 		err := st.O.Unpack(&m, o...)
 		return show(m, err) + st.O.Path(".") + fmt.Sprint(st.O.Parent() != nil)
+	}},
+	{"unpack-twice-into-captured", func(c *ucfg.Config, o []ucfg.Option) string {
+		// the same target unpacked twice, under a list policy: the second Unpack meets the configs the first one
+		// captured (possibly the shared ones a reference leads to); the source must not change
+		out := ""
+		for _, pol := range []ucfg.Option{ucfg.AppendValues, ucfg.PrependValues, ucfg.ReplaceValues} {
+			var st captured
+			oo := append([]ucfg.Option{pol}, o...)
+			err1 := c.Unpack(&st, oo...)
+			err2 := c.Unpack(&st, oo...)
+			n := -1
+			if st.O != nil {
+				n, _ = st.O.CountField("z")
+			}
+			out += fmt.Sprint(err1, err2, n, "|")
+		}
+		return out
+	}},
+	{"merge-source-next-to-dotted-keys", func(c *ucfg.Config, o []ucfg.Option) string {
+		// the config (and children of it, one of them empty) embedded in an input whose other keys address
+		// settings below them
+		d := ucfg.New()
+		in := map[string]interface{}{"w": c, "w.zz": 1, "w.o.added": true}
+		if e, err := c.Child("e", -1, o...); err == nil {
+			in["e"] = e
+			in["e.add"] = true
+		}
+		if oc, err := c.Child("o", -1, o...); err == nil {
+			in["q"] = map[string]interface{}{"o": oc}
+			in["q.o.z.5"] = "x"
+		}
+		err := d.Merge(in, o...)
+		_, err2 := ucfg.NewFrom(in, o...)
+		return fmt.Sprint(err, err2, sorted(d.GetFields()))
 	}},
 	{"string", func(c *ucfg.Config, o []ucfg.Option) string { s, err := c.String("a", -1, o...); return fmt.Sprint(s, err) }},
 	{"int", func(c *ucfg.Config, o []ucfg.Option) string { s, err := c.Int("b", -1, o...); return fmt.Sprint(s, err) }},
@@ -177,8 +220,10 @@ func runCase(cs Case, r *runlog.R) error {
 	opts := []ucfg.Option{ucfg.PathSep("."), ucfg.VarExp, res, ucfg.Env(env)}
 	tree := map[string]interface{}{
 		"a": leaf(0), "b": leaf(1), "r": leaf(2), "n": nil,
-		"o": map[string]interface{}{"x": leaf(3), "y": leaf(4)},
+		"o": map[string]interface{}{"x": leaf(3), "y": leaf(4), "z": []interface{}{1, map[string]interface{}{"k": leaf(4)}}},
 		"l": []interface{}{leaf(5), leaf(6)},
+		"e": map[string]interface{}{},
+		"m": map[string]interface{}{"p": "${o}", "q": map[string]interface{}{"l": []int{1, 2}}},
 	}
 	c, err := ucfg.NewFrom(tree, opts...)
 	if err != nil {
@@ -250,7 +295,7 @@ func runCase(cs Case, r *runlog.R) error {
 
 var subReads = runlog.Register(&runlog.Sub[Case]{
 	Name:    "pure-reads",
-	Rule:    "configs over settings a, b, r, n(nil), o{x,y}, l[2] whose leaves are drawn from 20 values (references, splices, repeated uses, resolver values that parse into objects and lists, references to objects/lists/nil, Env-provided objects, defaults, plain primitives); 20 read operations (Unpack generic/typed/with captured *Config fields, all getters, Child incl. of references/nil/list elements, Has, CountField, GetFields, Path/PathOf/Parent, FlattenedKeys, CompareConfigs, use as Merge/NewFrom source). Sequentially: the stored tree incl. addresses (hook fingerprint) and a reflective deep hash of everything reachable are identical before and after every single read, and each read is repeatable. Then 2-8 goroutines run all reads 1-3 times in staggered order under the race detector; each result must equal the result obtained alone. Non-trivial: the config holds at least one dynamic value (every goroutine evaluates it). Distinct: hash of the case.",
+	Rule:    "configs over settings a, b, r, n(nil), o{x,y}, l[2] whose leaves are drawn from 20 values (references, splices, repeated uses, resolver values that parse into objects and lists, references to objects/lists/nil, Env-provided objects, defaults, plain primitives); 22 read operations (Unpack generic/typed/with captured *Config fields, all getters, Child incl. of references/nil/list elements, Has, CountField, GetFields, Path/PathOf/Parent, FlattenedKeys, CompareConfigs, use as Merge/NewFrom source). Sequentially: the stored tree incl. addresses (hook fingerprint) and a reflective deep hash of everything reachable are identical before and after every single read, and each read is repeatable. Then 2-8 goroutines run all reads 1-3 times in staggered order under the race detector; each result must equal the result obtained alone. Non-trivial: the config holds at least one dynamic value (every goroutine evaluates it). Distinct: hash of the case.",
 	Gen:     genCase,
 	Run:     runCase,
 	Journal: true,
